@@ -114,10 +114,11 @@ func (c *C12Case) Run() (res stat.Result) {
 				res.Classes = append(res.Classes, "map-order-differs")
 				continue
 			}
-			if !oka && !okb && c.Mask&optNoQuoteTextMarshaler != 0 {
-				// NoQuoteTextMarshaler with a marshaler whose text is not a literal (documented caller
-				// error): the output is not JSON and cannot be compared modulo map order, so compare
-				// the two back ends again with sorted keys, byte for byte
+			if !oka && !okb && c.Mask&(optNoQuoteTextMarshaler|optNoValidateJSONMarshaler) != 0 {
+				// NoQuoteTextMarshaler with a marshaler whose text is not a literal, or NoValidateJSONMarshaler
+				// with a marshaler returning text that is not JSON (documented caller errors): the output
+				// is not JSON and cannot be compared modulo map order, so compare the two back ends again
+				// with sorted keys, byte for byte
 				if jitSorted == nil {
 					jitSorted = run(false, opts|encoder.SortMapKeys)
 					vmSorted = run(true, opts|encoder.SortMapKeys)
